@@ -211,13 +211,68 @@ def check_ptrcmp(ctx, P):
                    expr_str(bad[0][0], bad[0][1]), bad[0][0].q, bad[0][2]))
 
 
+NAME_KEYS = ("get_qualified_name", "get_name", "get_linkage_name", "get_qualified_parent_name")
+
+
+def check_tiebreak(ctx, P):
+    """R-TIEBREAK: the vectors the writer emits are stable-sorted from pointer-hashed sets, so a comparator that ties on
+    two distinct elements lets the hash order through.  For comparators over the heterogeneous hierarchies
+    (decl_base / type_base operands) the last-resort key must distinguish the *kind* of the artifact: a name alone does
+    not (`typedef struct foo {..} foo;` gives a struct and a typedef one qualified name and one location).  Decided for
+    the name getters (violation); other keys are not judged."""
+    comps = comparators(P)
+    n = 0
+    for u, where in sorted(comps.items(), key=lambda kv: kv[1]):
+        g = P.funcs.get(u)
+        if g is None or g.cfg() is None:
+            continue
+        ps = g.params()
+        if len(ps) != 2:
+            continue
+        tys = [(g.unit.type(p["t"]) or {}).get("c", "") for p in ps]
+        if not all(re.search(r"\b(decl_base|type_base|type_or_decl_base)\b", t) for t in tys):
+            continue
+        # the textually last return of the functor = the last resort
+        rets = [x for x in g.nodes() if x["k"] == "ReturnStmt" and x.get("c")]
+        if not rets:
+            continue
+        last = max(rets, key=lambda x: (x["l"], x["i"]))
+        e = strip_casts(last["c"][0])
+        while e is not None and e["k"] in ("ExprWithCleanups", "ImplicitCastExpr", "MaterializeTemporaryExpr", "ParenExpr") and e.get("c"):
+            e = strip_casts(e["c"][0])
+        if e is None or e["k"] not in ("BinaryOperator", "CXXOperatorCallExpr") or e.get("op") not in ("<", ">"):
+            continue
+        ops = call_args(e) if e["k"] == "CXXOperatorCallExpr" else e["c"]
+        keys = set()
+        for o in ops:
+            for x in walk(o):
+                if x["k"] in ("CallExpr", "CXXMemberCallExpr"):
+                    nm = (g.decl(x) or {}).get("n")
+                    if nm and (nm.startswith("get_") or nm.endswith("representation")):
+                        keys.add(nm)
+        if not keys:
+            continue
+        n += 1
+        bad = keys & set(NAME_KEYS)
+        name = (g.cls + "::" + g.n) if g.cls else g.n
+        ent = "%s(%s): the last-resort key distinguishes artifacts of different kinds" % (
+            name.replace("abigail::", ""), ", ".join(t.replace("abigail::ir::", "") for t in tys))
+        ctx.ob("R-TIEBREAK", ent, not bad, g.loc(last),
+               "last resort compares %s" % sorted(keys) if not bad else
+               "the last resort compares %s: a type and the typedef (or variable) that bears its name tie, and std::stable_sort "
+               "then keeps the enumeration order of the pointer-hashed set the sequence was built from - the emitted order "
+               "depends on heap layout (sorted at %s)" % (sorted(bad), where))
+    ctx.floor("R-TIEBREAK", "comparators over decl_base / type_base with a keyed last resort", n, 1)
+
+
 def run(ctx):
     ctx.clause = ("no address-dependent iteration order reaches the output: loops over pointer-keyed / "
                   "interned_string-keyed unordered containers and pointer-ordered sets only fill associative "
                   "containers or vectors that are sorted afterwards, and sort comparators never order by address")
-    ctx.rules = ["R-UNORD", "R-PTRCMP"]
+    ctx.rules = ["R-UNORD", "R-PTRCMP", "R-TIEBREAK"]
     P = ctx.program(None)
     check_unord(ctx, P)
     check_ptrcmp(ctx, P)
+    check_tiebreak(ctx, P)
     ctx.assume("loop bodies that call arbitrary functions with side effects (e.g. add_alias) are not classified; "
                "nondeterminism from uninitialised memory or from elfutils is not decided")
